@@ -1,6 +1,7 @@
 from core import Case, hexs
 from gen_util import *
 PID = "C03"
+SOURCE_TIE = ["tie_hmac_pads"]   # coq_tie/Tie_Source.v against Gen_Source.v regenerated from /repo on every run
 DRIVER = "drv_pure"
 RULE = ("operation histories (I init, U:chunk update, F finish) on ONE hash context object / ONE HmacContext vs the context models; "
         "all two-way splits of messages up to 3B+5, sampled 3/4-way splits, empty chunks, reuse and abandoned cycles; "
